@@ -6,7 +6,7 @@
    the dataset a user obtains by building one from the content [l] (labels
    0..n-1).  All theorems are discrete and closed under the global context. *)
 From Coq Require Import ZArith List.
-From FDAV Require Import Model.PyIndex Model.Select Lemmas.PyIndex Lemmas.Select.
+From FDAV Require Import Model.PyIndex Model.Select Lemmas.PyIndex Lemmas.Select Lemmas.SelectMore.
 Import ListNotations.
 Local Open Scope Z_scope.
 
@@ -174,3 +174,52 @@ Example C13_example :
   res_all (pieces (fresh [10; 11; 12; 13; 14; 15]%nat) 0 [2; 2; 5; 6])
     = Ok [fresh [10; 11]%nat; []; fresh [12; 13; 14]%nat; fresh [15%nat]].
 Proof. vm_compute. repeat split; discriminate. Qed.
+
+(* ---- algebra of concatenation and selection (Lemmas/SelectMore.v), for all datasets ---- *)
+(* number of observations of a concatenation = sum of the numbers of observations *)
+Theorem C13_concatenate_length : forall (obs : Type) (ds : list (@dataset obs)),
+  length (concatenate ds) = fold_right (fun d n => (length d + n)%nat) 0%nat ds.
+Proof. exact @concatenate_length. Qed.
+Print Assumptions C13_concatenate_length.
+(* nested concatenation = flat concatenation; in particular concatenation is associative *)
+Theorem C13_concatenate_flatten : forall (obs : Type) (dss : list (list (@dataset obs))),
+  concatenate (map concatenate dss) = concatenate (concat dss).
+Proof. exact @concatenate_flatten. Qed.
+Print Assumptions C13_concatenate_flatten.
+Theorem C13_concatenate_assoc : forall (obs : Type) (a b c : @dataset obs),
+  concatenate [concatenate [a; b]; c] = concatenate [a; b; c] /\
+  concatenate [a; concatenate [b; c]] = concatenate [a; b; c].
+Proof. exact @concatenate_assoc. Qed.
+Print Assumptions C13_concatenate_assoc.
+(* an empty dataset is neutral wherever it stands; a single fresh dataset is returned as it is *)
+Theorem C13_concatenate_empty_neutral : forall (obs : Type) (ds1 ds2 : list (@dataset obs)),
+  concatenate (ds1 ++ [] :: ds2) = concatenate (ds1 ++ ds2).
+Proof. exact @concatenate_empty_neutral. Qed.
+Print Assumptions C13_concatenate_empty_neutral.
+Theorem C13_concatenate_singleton_fresh : forall (obs : Type) (l : list obs), concatenate [fresh l] = fresh l.
+Proof. exact @concatenate_singleton_fresh. Qed.
+Print Assumptions C13_concatenate_singleton_fresh.
+(* iterate, then concatenate the singletons: the data come back (what multivariate normalize relies on) *)
+Theorem C13_concatenate_iter : forall (obs : Type) (d : @dataset obs), concatenate (iter d) = fresh (content d).
+Proof. exact @concatenate_iter. Qed.
+Print Assumptions C13_concatenate_iter.
+(* the full slice is the dataset; a split at ANY point 0 <= c <= n followed by concatenation is the identity *)
+Theorem C13_getitem_full_slice : forall (obs : Type) (d : @dataset obs),
+  getitem d (slice_ab 0 (Z.of_nat (length d))) = Ok (fresh (content d)).
+Proof. exact @getitem_full_slice. Qed.
+Print Assumptions C13_getitem_full_slice.
+Theorem C13_split_concat_identity : forall (obs : Type) (d : @dataset obs) c, 0 <= c <= Z.of_nat (length d) ->
+  exists d1 d2, getitem d (slice_ab 0 c) = Ok d1 /\
+                getitem d (slice_ab c (Z.of_nat (length d))) = Ok d2 /\
+                (length d1 + length d2 = length d)%nat /\
+                concatenate [d1; d2] = fresh (content d).
+Proof. exact @split_concat_identity. Qed.
+Print Assumptions C13_split_concat_identity.
+(* non-vacuity: split five observations at 2, the end points included *)
+Example C13_split_example :
+  let d := fresh [10; 11; 12; 13; 14]%nat in
+  getitem d (slice_ab 0 2) = Ok (fresh [10; 11]%nat) /\
+  getitem d (slice_ab 2 5) = Ok (fresh [12; 13; 14]%nat) /\
+  concatenate [fresh [10; 11]%nat; fresh [12; 13; 14]%nat] = d /\
+  getitem d (slice_ab 0 0) = Ok [] /\ concatenate [[]; d] = d.
+Proof. vm_compute. repeat split. Qed.
